@@ -125,7 +125,7 @@ def select_family(f):
         calls.append([['lock', 'Update'], ['lock_with_behavior', 'Share', 'SkipLocked'], ['lock_with_tables', 'Update', [['t', 't']]], ['lock_with_behavior', 'Update', 'Nowait']][lk])
     return {'k': 'select', 'calls': calls}
 
-INSERT_TOGGLES = ['rows', 'cols', 'select', 'conflict', 'cwhere', 'returning', 'cte', 'defaults', 'dnfirst']
+INSERT_TOGGLES = ['rows', 'cols', 'select', 'conflict', 'cwhere', 'twhere', 'returning', 'cte', 'defaults', 'dnfirst']
 
 def insert_family(f):
     calls = [['into_table', ['t', 't']]]
@@ -155,6 +155,7 @@ def insert_family(f):
         # a DO NOTHING requested first is replaced by the later update calls (the last action wins)
         first = [['do_nothing']] if f.opt('dnfirst') else []
         oc = {'target': ['cols', [cols[0]]], 'calls': first + [['update_column', cols[-1]], ['value', 'k_%d' % n, ['val', v]]]}
+        if f.b != 'mysql' and f.opt('twhere'): oc['calls'].append(['target_and_where', f.cmp()])      # ON CONFLICT (..) WHERE <partial-index predicate>
         if f.b != 'mysql' and f.opt('cwhere'): oc['calls'].append(['action_and_where', f.cmp()])
         calls.append(['on_conflict', oc])
     if f.b != 'mysql' and f.opt('returning'): calls.append(['returning_exprs', [f.cmp()]])
